@@ -32,9 +32,33 @@ def dump(repo, out, target_dir):
     return True, time.time() - t
 
 
+def dump_to_sql(repo, out, target_dir):
+    """MIR of the SQL translator (extensions/to_sql, a separate crate that depends on rscel with its
+    default features)"""
+    env = dict(os.environ)
+    env["CARGO_NET_OFFLINE"] = "true"
+    env["CARGO_TARGET_DIR"] = target_dir
+    env.pop("RUSTFLAGS", None)
+    env["RUSTUP_TOOLCHAIN"] = "nightly"
+    os.makedirs(target_dir, exist_ok=True)
+    for p in glob.glob(os.path.join(target_dir, "debug", ".fingerprint", "rscel-to-sql-*")):
+        shutil.rmtree(p, ignore_errors=True)
+    cmd = ["cargo", "rustc", "--offline", "--lib", "--", "-Zunpretty=mir", "-C", "debug-assertions=off", "-C", "overflow-checks=on"]
+    t = time.time()
+    p = subprocess.run(cmd, cwd=os.path.join(repo, "extensions", "to_sql"), env=env, stdout=subprocess.PIPE, stderr=subprocess.PIPE, text=True)
+    if p.returncode != 0 or "fn " not in p.stdout:
+        sys.stderr.write(p.stderr[-3000:])
+        return False, time.time() - t
+    open(out, "w").write(p.stdout)
+    return True, time.time() - t
+
+
 if __name__ == "__main__":
     repo, out = sys.argv[1], sys.argv[2]
     td = sys.argv[3] if len(sys.argv) > 3 else os.path.join(os.path.dirname(os.path.abspath(out)), "mir-target")
     ok, secs = dump(repo, out, td)
     print(f"mir dump {'ok' if ok else 'FAILED'} in {secs:.1f}s -> {out}")
+    if ok and len(sys.argv) > 4:
+        ok, secs = dump_to_sql(repo, sys.argv[4], td + "-sql")
+        print(f"mir dump (to_sql) {'ok' if ok else 'FAILED'} in {secs:.1f}s -> {sys.argv[4]}")
     sys.exit(0 if ok else 2)
